@@ -583,6 +583,8 @@ class ReadParquet(PartitionsFiltered, BlockwiseIO):
     def _filter_passthrough_available(self, parent, dependents):
         return (
             super()._filter_passthrough_available(parent, dependents)
+            # filters prune the fragments that the selected partitions count
+            and not self._filtered
             and (isinstance(parent.predicate, (LE, GE, LT, GT, EQ, NE, And, Or)))
             and _DNF.extract_pq_filters(self, parent.predicate)._filters is not None
         )
